@@ -465,3 +465,191 @@ func memoKeyComplete(ctx *core.Ctx, r *core.Report, fns []*ssa.Function) int {
 	}
 	return len(sites)
 }
+
+// ---------------------------------------------------------------------------
+// no-stale-verdicts (C09, C16, C04)
+//
+// A verdict about live data (which case holds data, whether a `when` is true,
+// a value read from a node) that is remembered in a table must be forgotten
+// when the data changes. Two necessary conditions are decided:
+//
+//	(1) the table is cleared somewhere (a nil/empty map stored to the field, or a
+//	    delete on it) — with no invalidation at all the first answer is served
+//	    for ever, whatever is edited afterwards;
+//	(2) the struct holding the table is never copied by value — a copy shares
+//	    the map while the invalidation (`x.tbl = nil`) resets one copy only.
+//
+// Tables that hold helper objects (reflection handlers etc.) rather than
+// verdicts are not concerned: a verdict is a bool, number, string, val.Value or
+// a schema node picked on the strength of the data.
+// ---------------------------------------------------------------------------
+
+func isVerdictType(t types.Type) bool {
+	switch u := t.Underlying().(type) {
+	case *types.Basic:
+		return true
+	case *types.Pointer:
+		if n := core.NamedOf(u); n != nil && n.Obj().Pkg() != nil && n.Obj().Pkg().Path() == core.Full("meta") {
+			return true
+		}
+	case *types.Interface:
+		if n, ok := t.(*types.Named); ok && n.Obj().Pkg() != nil && (n.Obj().Pkg().Path() == core.Full("val") || n.Obj().Pkg().Path() == core.Full("meta")) {
+			return true
+		}
+	}
+	return false
+}
+
+// liveDataFuncs: functions from which a node.Node callback, a Selection
+// method or package reflect is reachable.
+func liveDataFuncs(ctx *core.Ctx) map[*ssa.Function]bool {
+	g := ctx.CG()
+	live := map[*ssa.Function]bool{}
+	nodeIface := ctx.Named("node", "Node")
+	var seeds []*ssa.Function
+	for f := range g.Nodes {
+		if f == nil {
+			continue
+		}
+		p := core.FnPkgPath(f)
+		if p == "reflect" {
+			seeds = append(seeds, f)
+			continue
+		}
+		if rv := f.Signature.Recv(); rv != nil && nodeIface != nil {
+			if types.Implements(rv.Type(), nodeIface.Underlying().(*types.Interface)) {
+				seeds = append(seeds, f)
+			}
+		}
+	}
+	// reverse reachability
+	work := append([]*ssa.Function{}, seeds...)
+	for _, s := range seeds {
+		live[s] = true
+	}
+	for len(work) > 0 {
+		f := work[0]
+		work = work[1:]
+		n := g.Nodes[f]
+		if n == nil {
+			continue
+		}
+		for _, e := range n.In {
+			c := e.Caller.Func
+			if c != nil && !live[c] {
+				live[c] = true
+				work = append(work, c)
+			}
+		}
+	}
+	return live
+}
+
+func noStaleVerdicts(ctx *core.Ctx, r *core.Report, fns []*ssa.Function, pkgs ...string) int {
+	sites := findMemoSites(fns)
+	if len(sites) == 0 {
+		return 0
+	}
+	live := liveDataFuncs(ctx)
+	callLive := func(c ssa.CallInstruction) bool {
+		if cal := c.Common().StaticCallee(); cal != nil {
+			return live[cal]
+		}
+		if c.Common().IsInvoke() {
+			return true // a dynamic call: may be a node callback
+		}
+		return false
+	}
+	n := 0
+	done := map[string]bool{}
+	for _, s := range sites {
+		mt, ok := s.update.Map.Type().Underlying().(*types.Map)
+		if !ok || !isVerdictType(mt.Elem()) {
+			continue
+		}
+		// does the stored value, or the condition under which it is stored, depend on live data?
+		dep := false
+		var depCall string
+		seen := map[ssa.Value]bool{}
+		var walk func(v ssa.Value)
+		walk = func(v ssa.Value) {
+			if v == nil || seen[v] || dep {
+				return
+			}
+			seen[v] = true
+			if c, ok := v.(*ssa.Call); ok && callLive(c) {
+				dep, depCall = true, core.CalleeName(c)
+				return
+			}
+			if in, ok := v.(ssa.Instruction); ok {
+				for _, op := range in.Operands(nil) {
+					if op != nil && *op != nil {
+						walk(*op)
+					}
+				}
+			}
+		}
+		walk(s.update.Value)
+		for _, pc := range core.PathConds(s.update.Block()) {
+			walk(pc.V)
+		}
+		if !dep {
+			continue
+		}
+		key := core.FnName(s.fn) + "/" + s.owner.Obj().Name() + "." + s.field
+		if done[key] {
+			continue
+		}
+		done[key] = true
+		n++
+		// (1) invalidation anywhere in the given packages
+		invalidated := false
+		copied := ""
+		for _, f := range ctx.RepoFuncs() {
+			in := false
+			for _, p := range pkgs {
+				if core.FnPkgPath(f) == core.Full(p) {
+					in = true
+				}
+			}
+			if !in {
+				continue
+			}
+			core.Instrs(f, func(_ *ssa.BasicBlock, ins ssa.Instruction) {
+				switch x := ins.(type) {
+				case *ssa.Store:
+					if fa, ok := x.Addr.(*ssa.FieldAddr); ok && core.NamedOf(fa.X.Type()) == s.owner {
+						st := core.Deref(fa.X.Type()).Underlying().(*types.Struct)
+						if st.Field(fa.Field).Name() == s.field {
+							if core.IsNilConst(x.Val) {
+								invalidated = true
+							}
+							if _, isMake := core.Strip(x.Val).(*ssa.MakeMap); isMake && f != s.fn {
+								invalidated = true
+							}
+						}
+					}
+					// struct copy: a whole value of the owner type stored into another location
+					if u, ok := core.Strip(x.Val).(*ssa.UnOp); ok && u.Op == token.MUL && types.Identical(u.Type(), s.owner) {
+						if _, isPtr := u.X.Type().Underlying().(*types.Pointer); isPtr {
+							copied = ctx.Pos(x.Pos())
+						}
+					}
+				case *ssa.Call:
+					if b, ok := x.Common().Value.(*ssa.Builtin); ok && b.Name() == "delete" {
+						if on, fld, _, ok := mapFieldOf(x.Common().Args[0]); ok && on == s.owner && fld == s.field {
+							invalidated = true
+						}
+					}
+				}
+			})
+		}
+		r.Ob("no-stale-verdicts", key+"/invalidated", ctx.Pos(s.update.Pos()), invalidated,
+			fmt.Sprintf("%s remembers in %s.%s an answer that depends on live data (%s) and nothing ever clears that table: after the data is edited the first answer is still served", core.FnName(s.fn), s.owner.Obj().Name(), s.field, depCall))
+		if invalidated {
+			r.Ob("no-stale-verdicts", key+"/holder-not-copied", ctx.Pos(s.update.Pos()), copied == "",
+				fmt.Sprintf("%s.%s remembers answers about live data (%s), and %s values are copied by value (%s): the copies share one table while clearing it resets one copy only, so another node keeps serving the old answer", s.owner.Obj().Name(), s.field, depCall, s.owner.Obj().Name(), copied))
+		}
+	}
+	return n
+}
